@@ -98,6 +98,16 @@ def extract (comp : Char → Char) (rec : Seq) (l : Loc) : Seq :=
 /-- the ORF's own nucleotides `w[s .. e+3)` -/
 def orfSeq (w : Seq) (s e : Nat) : Seq := (w.drop s).take (e + 3 - s)
 
+/-! ### the protein an ORF encodes -/
+
+/-- unambiguous upper-case DNA -/
+def acgt : List Char := ['A', 'C', 'G', 'T']
+
+/-- one residue per codon from the second codon up to the one before the stop, read off the codon
+    table, after a leading methionine (whatever the start codon) -/
+def specProtein (tbl : List (Seq × Char)) (w : Seq) (s e : Nat) : List Char :=
+  'M' :: ((List.range ((e - s) / 3 - 1)).map fun i => ((lookupAa tbl (codonAt w (s + 3 * (i + 1)))).getD 'X'))
+
 /-! ### how the scanned window relates to the record
 
   `find_all_orfs` cuts `chunk = record[offset .. offset + n)` (around the origin when `offset < 0`)
@@ -155,6 +165,17 @@ def locInArea (L : Int) (a : Int × Int) (l : Loc) : Bool :=
 /-- no base of `l` lies in the core of any gene -/
 def locAvoids (genes : List Gene) (pad : Int) (l : Loc) : Bool :=
   l.parts.all fun p => areaAvoids genes pad (p.lo, p.hi)
+
+/-- bases shared by the stretch `[lo, hi)` and the gene's hull `[g.start, g.end)` -/
+def overlapSize (g : Gene) (lo hi : Int) : Int := max 0 (min hi g.end - max lo g.start)
+
+/-- bases shared by the stretch `[lo, hi)` and one exon of a gene -/
+def exonOverlap (gp : Part) (lo hi : Int) : Int := max 0 (min hi gp.hi - max lo gp.lo)
+
+/-- "lying in the gaps between existing genes (up to the allowed overlap)": no part of `l` shares
+    more than `pad` bases with any exon of any of the genes (given by their locations) -/
+def locOverlapOk (genes : List Loc) (pad : Int) (l : Loc) : Bool :=
+  l.parts.all fun q => genes.all fun gl => gl.parts.all fun gp => decide (exonOverlap gp q.lo q.hi ≤ pad)
 
 /-- a well-formed intergenic area of a record of length `L`: inside the record, or reaching back
     across the origin by at most one turn (`start < 0`), never longer than the record -/
